@@ -219,7 +219,7 @@ class MemPath:
         elif not missing_ok:
             raise FileNotFoundError(self.name)
 
-    def open(self, mode="r"):
+    def open(self, mode="r", buffering=-1, encoding=None, errors=None, newline=None):
         if "w" in mode:
             f = io.StringIO()
             f.close = lambda: None
@@ -335,6 +335,17 @@ def so_{name}({args}) -> bool:
         if c.tier == "quick" and ("w2_lf" in c.name or "w1_crlf_nonl" in c.name):
             c.name = "buffer_size_" + c.name
             out.append(c)
+    # re-running on the same inputs and output template gives byte-identical files (through the real CLI, C16's harness)
+    from vlib.props import c16
+    out.append(Cond("rerun_gives_identical_files", c16.HEAD, "rerun_identical", 600,
+                    "the real pretext-to-asm CLI callback run twice on the same inputs and output template (3 cases: TPF multi-assembly, FASTA, AGP) with an unrelated run in between, on one in-memory FS: all files identical",
+                    env=c16.ENV, encodes=("pretext_to_asm.cli", "pretext_to_asm.setup_logging", "pretext_to_asm.get_output_filehandle")))
+    # stream buffer size: C13's memory/stream conditions decide the output for every buffer size
+    from vlib.props import c03
+    for c in c03.c13_conditions(tier):
+        if c.tier == "quick":
+            c.name = "stream_buffer_size_" + c.name
+            out.append(c)
     out.append(Cond("header_text_does_not_matter", HEAD_MISC, "header_noninterference", 900,
                     "input header line (which carries the absolute path, hence the working directory) = symbolic string <= 3 chars; F G F cut once, all numbers symbolic", encodes=ENC[3:4]))
     out.append(Cond("gap_memoisation_order", HEAD_MISC, "gap_memo", 600,
@@ -378,6 +389,8 @@ def replay_setorder(cond, args, kwargs):
     return {"reproduced": len(outs) > 1, "observed": f"{len(outs)} distinct outputs over PYTHONHASHSEED 0..15",
             "outputs_by_seed": {k[:400]: v for k, v in outs.items()}}
 
+
+from vlib.props.c03 import replay_stream  # noqa: E402,F401
 
 BOUNDS = ["set order: 6 concrete tag scenarios x every iteration order of every set iteration", "header: strings <= 3 chars", "Gap memo: lengths 0..3 x 2 types",
           "cache and format equivalence: two records, unbounded symbolic numbers"]
